@@ -775,7 +775,16 @@ class VCluster:
         if c0 == "hook":
             name = command[1]
             e = env or {}
-            self.log("hook", p.pid, name, e.get("JADE_RUNTIME_OUTPUT"), e.get("JADE_SUBMISSION_GROUP"), p.kind, p.batch)
+            # batches queued or running at this moment that still have a job without a recorded outcome
+            busy = ()
+            if name == "teardown":
+                try:
+                    have = {r[1] for r in self.read_rows()}
+                    busy = tuple(sorted(h for h, b in self.slurm.items() if b["state"] in ("pending", "running")
+                                        and any(k not in have for k, _bl in b["jobs"])))
+                except Exception:  # noqa
+                    busy = ()
+            self.log("hook", p.pid, name, e.get("JADE_RUNTIME_OUTPUT"), e.get("JADE_SUBMISSION_GROUP"), p.kind, p.batch, busy)
             ret = 1 if failing else int(self.hook_rc.get(name, 0))
             return ret, "", ""
         if c0 == "jade":
